@@ -631,16 +631,23 @@ class ExpressionASTTransformer(TemplateASTTransformer):
         return _new(_ast.Call, func, args, [])
 
     def visit_Subscript(self, node):
-        if not isinstance(node.ctx, _ast.Load) or \
-                not isinstance(node.slice, (_ast.Index, _ast_Constant, _ast.Name, _ast.Call)):
+        def is_slice(slice_):
+            # "foo[a:b]", "foo[a:b, c]": ast.Slice / ast.ExtSlice before
+            # Python 3.9, ast.Slice / ast.Tuple containing ast.Slice since
+            return isinstance(slice_, (_ast.Slice, _ast.ExtSlice)) or (
+                isinstance(slice_, _ast.Tuple) and
+                any(isinstance(elt, _ast.Slice) for elt in slice_.elts))
+
+        if not isinstance(node.ctx, _ast.Load) or is_slice(node.slice):
             return ASTTransformer.visit_Subscript(self, node)
 
         # Before Python 3.9 "foo[key]" wrapped the load of "key" in
-        # "ast.Index(ast.Name(...))"
-        if isinstance(node.slice, (_ast.Name, _ast.Call)):
-            slice_value = node.slice
-        else:
+        # "ast.Index(ast.Name(...))"; since then the key expression (of any
+        # kind) is the slice itself
+        if isinstance(node.slice, _ast.Index):
             slice_value = node.slice.value
+        else:
+            slice_value = node.slice
 
 
         func = _new(_ast.Name, '_lookup_item', _ast.Load())
